@@ -112,7 +112,7 @@ PROPS['C07'] = dict(
     explanation='Frame contracts: every state-changing pair / router handler carries a postcondition that pins its ENTIRE message list (swap: at most one transfer of the ask asset from the pair to the receiver; withdraw: two refunds to the hook sender + burn of exactly a; provide: TransferFrom(owner = caller, recipient = pair, declared amount) per cw20 asset + mint(s) on the LP token of exactly the computed share; router: self-calls per hop, one swap message spending only the router\'s own balance, assertion message) and leaves storage untouched. No other message can be emitted, so no third-party balance is named anywhere.',
 )
 
-T_FSTORE = 'factory storage: cw-storage-plus Item/Map modelled as fields / ghost maps of a storage record; may_load never fails on typed storage; Map::range(None,None,Ascending).map(to_normal).collect() (read_all_pairs) returns every record exactly once'
+T_FSTORE = 'factory storage: cw-storage-plus Item/Map modelled as fields / ghost maps of a storage record; may_load never fails on typed storage; Map::range(storage, None | ExclusiveRaw(lo), None, Ascending) yields every stored record whose key is above lo exactly once, in ascending byte order of the keys, and stored values deserialize (MapPairs::range_all / range_from, axiom_sorted_keys); read_all_pairs and read_pairs are VERIFIED on top of that'
 T_BYTES = 'byte-level std facts: String::as_bytes is an injective function of the text (UTF-8), <[u8] as Ord>::cmp is lexicographic, Ordering::then, bool::cmp, u64::to_be_bytes is injective with 8 bytes; slice::sort_by on two elements / [T;2]::to_vec / Vec::extend_from_slice behave like the verified helpers'
 T_FQ = 'factory-side queries are projections of the chain state: native_decimals_of (factory allow-list query), cw20 token_info, pair_self_report (the pair\'s own Pair{} answer), reply_contract_addr (address parsed from the instantiate reply); Decimal256 -> text -> Decimal256 and the literal "0.003" are text (C18 n/a) and assumed'
 FACTORY_TRUST = [T_VERUS, T_CW, T_API, T_FSTORE, T_BYTES, T_FQ, T_SERDE, T_DERIVE2, T_R4, T_R2]
@@ -133,6 +133,16 @@ PROPS['C17'] = dict(
     units=[('u_factory.rs', 'B', ['factory', 'asset', 'querier']), ('u_pair.rs', 'B', None)], min_tagged=14, trusted=sorted(set(FACTORY_TRUST + PAIR_TRUST)),
     assumptions=[T_CHAIN, 'the UpdateNativeTokenDecimals messages emitted by the factory are delivered to the pairs in the same transaction (chain semantics); registry well-formedness (records stored under the key of their own two distinct assets) is an explicit hypothesis discharged by lemma_registry_wf_preserved / lemma_registry_wf_after_update'],
     explanation='execute_add_native_token_decimals: allow-list entry becomes the new value; for a well-formed registry and an already registered denom EVERY record (loop invariant over the complete listing) has the position(s) of that denom set to the new value and everything else unchanged; first registration touches no record; pair update_native_token_decimals: factory only, decimals replaced iff the denom is one of its native assets.',
+)
+
+PROPS['C19'] = dict(
+    units=[('u_factory.rs', 'B', ['factory', 'asset', 'querier'])], min_tagged=14, trusted=FACTORY_TRUST,
+    assumptions=['the order and completeness of cw_storage_plus::Map::range over the chain KV store is an assumed dependency contract (ascending byte order of the raw keys, ExclusiveRaw bound, every record once)',
+                 'page size >= 1 (limit = Some(0) returns an empty page and a walk that stops on an empty page ends at once: degenerate, excluded)',
+                 'no registered key continues another registered key by a byte <= 0x01 (predicate no_ext01). With the key layout tag|len|first|tag|second this can only happen when two registered identifiers of the same kind differ by a suffix starting with 0x00 / 0x01: impossible for bank denoms ([a-zA-Z][a-zA-Z0-9/:._-]{2,127}) and for canonical addresses of one length. The hypothesis is explicit in lemma_c19_next_page, not hidden',
+                 'registry well-formedness (every record stored under the key of its own assets) is the invariant established under C16 / C17 (lemma_registry_wf_preserved)',
+                 'the walker continues with the asset_infos of the last pair of the previous page, as the statement says'],
+    explanation='read_pairs is verified: the page limit is min(limit or 10, 30); the cursor is pair_key(start_after) ++ [1], exclusive (calc_range_start, closure verified against its real body); the page is the first min(limit, remaining) records, in ascending key order, above the cursor, each mapped by to_normal (closure verified). query_pairs converts the cursor with to_raw and passes everything through; the query entry point serialises exactly that answer. Pure lemmas: the cursor built from the last returned pair is that pair\'s stored key (lemma_cursor_of_last, via registry_wf and canonicalize o humanize = id); under no_ext01 no key lies in (k, k ++ [1]] (lemma_gap, lemma_no_gap), so the next page resumes exactly at the following index (lemma_cursor_split, lemma_split_unique); by induction the concatenation of the pages is the whole ascending listing (lemma_walk_complete), which has no duplicates (lemma_sorted_no_dup).',
 )
 
 PROPS['C20'] = dict(
